@@ -34,7 +34,7 @@ Fixpoint pack (bs : bits) : bytes :=
   | [b0] => [Ascii b0 false false false false false false false]
   end.
 
-Definition b2n (b : bool) : N := if b then 1%N else 0%N.
+Definition b2n : bool -> N := N.b2n.
 
 (* the bits written by write_number: bool((number >> i) & 1) for i = 0 .. k-1 *)
 Fixpoint number_bits (x : N) (k : nat) : bits :=
